@@ -58,8 +58,6 @@ pub(crate) enum JumpRecordAction {
     /// and the `break` goes to the end of the loop, this is solved by having a jump table (See [`crate::vm::opcode::Opcode::JumpTable`])
     /// at the end of finally (It is constructed in [`ByteCompiler::pop_try_with_finally_control_info()`]).
     HandleFinally {
-        /// Jump table index.
-        index: u32,
         /// Register for the flag that indicated if the finally block needs to re throw.
         finally_throw_flag: u32,
         /// Register for the index in the jump table.
@@ -113,10 +111,20 @@ impl JumpRecord {
                     }
                 }
                 JumpRecordAction::HandleFinally {
-                    index: value,
                     finally_throw_flag,
                     finally_throw_index,
                 } => {
+                    // The jump table entry is the position that this record takes among the
+                    // records of the try statement it is transferred to next. It is only known
+                    // now: records compiled earlier may still have been waiting in an inner try
+                    // statement when this record was created.
+                    let value = match self.actions.last() {
+                        Some(JumpRecordAction::Transfer { index }) => {
+                            compiler.jump_info[*index as usize].jumps.len()
+                        }
+                        _ => unreachable!("`HandleFinally` must be followed by a `Transfer`"),
+                    };
+
                     // Note: +1 because 0 is reserved for the fallthrough entry of the
                     // jump table emitted in `pop_try_with_finally_control_info`.
                     let index = value as i32 + 1;
